@@ -260,4 +260,26 @@ theorem request_clock_is_the_handlers_own :
 
 end LockShape
 
+/-- **the unwrapper forgets the previous datagram** (over the regenerated skeleton of `GeckoPacketProtocolHandler.handle`, the one
+long-lived object every framed datagram of a connection passes through): EVERY normal end of `handle` has assigned both the
+addressing (`_parms`) and the content (`_packet_content`) from the datagram in hand - there is no path (a malformed framing, a
+missing section) that returns with what the PREVIOUS datagram left there, which the consumer loop would then hand on as if it had
+just arrived -/
+theorem unwrapper_overwrites_its_fields_for_every_datagram :
+    GeckoModel.Coop.everyNormalEndDid (GeckoModel.Coop.isSetOf "self._parms") GeckoModel.Generated.Skeletons.sk_driver_protocol_packet__GeckoPacketProtocolHandler_handle = true ∧
+    GeckoModel.Coop.everyNormalEndDid (GeckoModel.Coop.isSetOf "self._packet_content") GeckoModel.Generated.Skeletons.sk_driver_protocol_packet__GeckoPacketProtocolHandler_handle = true := by
+  decide +kernel
+
+/-- the same over traces: whatever path `handle` takes, if it ends normally it has assigned both fields -/
+theorem unwrapper_overwrites_its_fields_traces {t : List GeckoModel.Coop.Ev} {o : GeckoModel.Coop.Out}
+    (h : GeckoModel.Coop.Run GeckoModel.Generated.Skeletons.sk_driver_protocol_packet__GeckoPacketProtocolHandler_handle t o) (ho : o = .fall ∨ o = .ret) :
+    (∃ a, GeckoModel.Coop.Ev.act a ∈ t ∧ GeckoModel.Coop.isSetOf "self._parms" a = true) ∧ (∃ a, GeckoModel.Coop.Ev.act a ∈ t ∧ GeckoModel.Coop.isSetOf "self._packet_content" a = true) :=
+  ⟨GeckoModel.Coop.everyNormalEndDid_sound unwrapper_overwrites_its_fields_for_every_datagram.1 h ho,
+   GeckoModel.Coop.everyNormalEndDid_sound unwrapper_overwrites_its_fields_for_every_datagram.2 h ho⟩
+
+/-- non-vacuity: an early return for a malformed packet is a path that keeps the old fields -/
+example : GeckoModel.Coop.everyNormalEndDid (GeckoModel.Coop.isSetOf "self._parms")
+    (.seq (.alt (.seq (.ev (.act ⟨.brT, "parts is None"⟩)) .exit) (.ev (.act ⟨.brF, "parts is None"⟩))) (.ev (.act ⟨.set, "self._parms"⟩))) = false := by
+  decide +kernel
+
 end GeckoModel.C06
